@@ -21,12 +21,12 @@ META = {
               "every reachable control state with free data registers + free-state one/two-frame clauses",
     "encoded": ["csr.wishbone.WishboneCSRBridge.__init__", "csr.wishbone.WishboneCSRBridge.elaborate",
                 "wishbone.bus.Signature", "csr.bus.Interface"],
-    "also": 'CSR address widths 12 and 16; induction step: the transfer following ANY acknowledge (any reachable sequencer state, any data register contents, gap 0-2 cycles, longer gaps by an idle-collapse lemma) is exact',
+    "also": 'CSR address widths 12 and 16; induction step: the transfer following ANY acknowledge (any reachable sequencer state, any data register contents, gap 0-2 cycles, longer gaps by an idle-collapse lemma) is exact; the transfer following a reset pulse applied in ANY state is exact',
     "bounds": "CSR data width 8/16/32/64 x ratio 1/2/4/8 (Wishbone data width <= 64), CSR address width "
               "log2(ratio)+0..3 (thorough: ..+5, up to 6); D = 2*(ratio+2)+2 frames from reset (thorough "
               "3*(ratio+2)+2): at least two (three) complete transfers incl. back-to-back, arbitrary idle gaps, "
               "cyc without stb, every select mask, read and write",
-    "outside": "behaviour under rst; initiators that withdraw or change a request before the acknowledge (protocol "
+    "outside": "the cycle(s) in which rst is high; initiators that withdraw or change a request before the acknowledge (protocol "
                "violation); unselected lanes of dat_r; histories longer than D frames beyond the all-state clauses",
     "assumptions": ["protocol-abiding initiator: once cyc&stb is presented, cyc, stb, adr, we, sel, dat_w are held "
                     "until the cycle in which ack is high", "CSR side: r_data is an arbitrary value every cycle"],
@@ -134,6 +134,23 @@ def queries(h, cfg):
         a, b, _ = monitor(h, fr[1:])
         return [_member(h, fr[0]), is1(fr[0].sig(h.br.wb_bus.ack))] + a, b
 
+    # ---- reset: whatever state the bridge is in (e.g. in the middle of a transfer), a cycle with rst high - during
+    # which the initiator presents no request - brings it back to where the next transfer is exact
+    def after_reset(h, fr):
+        from ..bmc import rst_of
+        wb = h.br.wb_bus
+        a, b, _ = monitor(h, fr[1:])
+        pre = [z3.Not(z3.And(is1(fr[0].sig(wb.cyc)), is1(fr[0].sig(wb.stb))))]
+        if rst_of(fr[0]) is not None:
+            pre.append(rst_of(fr[0]))
+            pre += [z3.Not(rst_of(f)) for f in fr[1:]]
+        return pre + a, b
+
+    def after_reset_twin(h, fr):
+        a, _ = after_reset(h, fr)
+        _, _, acks = monitor(h, fr[1:])
+        return a, z3.Or(*acks)
+
     def after_ack_twin(h, fr):
         a, _, acks = monitor(h, fr[1:])
         return [_member(h, fr[0]), is1(fr[0].sig(h.br.wb_bus.ack))] + a, z3.Or(*acks)
@@ -155,6 +172,8 @@ def queries(h, cfg):
         return [], z3.And(is1(fr[0].sig(wb.ack)), is1(fr[1].sig(wb.ack)))
     return [Q("transfers-exact-from-reset", D, build, init="reset", twin=twin),
             Q("next-transfer-exact-after-any-acknowledge", ratio + 6, after_ack, twin=after_ack_twin, max_prefix=ratio + 3),
+            Q("next-transfer-exact-after-a-reset-pulse-in-any-state", ratio + 5, after_reset, twin=after_reset_twin,
+              max_prefix=ratio + 3, rst=True),
             Q("no-strobe-outside-transfer", 1, no_strobe_outside),
             Q("ack-single-cycle", 2, ack_one_cycle,
               twin=lambda h, fr: ([], is1(fr[1].sig(h.br.wb_bus.ack))))]
